@@ -176,6 +176,13 @@ def derived_types(t):
     return _derived.get(t, [])
 
 
+def _why(o):
+    """the text of a rejection is observable behaviour too (a class-level list that grows with every validation shows only
+    there); addresses are masked, the text is capped"""
+    import re
+    return re.sub(r'0x[0-9a-fA-F]+', '0x', o.exc_msg or '')[:160]
+
+
 def _emit(el):
     """the text an accepted value is written as (unchecked serialisation): part of the verdict, so that a process-wide
     memo of formatted values (4 and 4.0 sharing one entry) is an observable residue"""
@@ -195,7 +202,7 @@ def verdict_table(name):
         alpha = alpha[::-1]
     for v in alpha:
         o = call(lambda: cls(v, xsd_check=False))
-        out.append(('text', repr(v), o.brief(), _emit(o.value) if o.ok else None))
+        out.append(('text', repr(v), o.brief(), _emit(o.value) if o.ok else _why(o)))
     kind, t = R.element_type(name)
     if kind == 'complex':
         try:
@@ -215,7 +222,7 @@ def verdict_table(name):
             rv = related_values(at)
             for v in (rv[::-1] if flip else rv):
                 o = call(lambda: cls(val, xsd_check=False, **{an.replace('-', '_'): v}))
-                out.append((an, repr(v), o.brief(), _emit(o.value) if o.ok else None))
+                out.append((an, repr(v), o.brief(), _emit(o.value) if o.ok else _why(o)))
     return out
 
 
